@@ -184,6 +184,10 @@ pub fn worker(def: &PropDef, cli: &Cli) -> i32 {
         let t_run = std::time::Instant::now();
         let res = simulate(&env, &wl, Mode::Seeded { rng: Rng::stream(sub, "choices"), policy }, &opts);
         let expensive = t_run.elapsed().as_secs_f64() > 1.0;
+        if let Ok(d) = std::env::var("LSPSIM_TRACE_DIR") {
+            // debugging aid: the decision trace of every run, one file per (run, process)
+            let _ = std::fs::write(format!("{d}/{i}-{}.trace", std::process::id()), sched::trace_text(&res.out.steps).join("\n"));
+        }
         let mut line = json!({"i": i, "steps": res.out.steps.len(), "hash": format!("{:016x}", decisions_hash(&res)), "states": res.out.states, "io_steps": res.out.io_steps, "events": wl.events.len(),
             "probes": (def.probes)(&wl, &res), "sched_probes": sched::probes_from(&res.out), "deviations": res.out.steps.iter().filter(|s| s.deviates).count(), "class": if opts.gate_first { "F" } else { "T" }});
         if res.out.infeasible {
